@@ -34,6 +34,15 @@ def signals(ctx, r, protos):
     sigs.append(('constant-pair', [500, -1500] * 12))
     sigs.append(('constant-pair', [431, -287] + [172, -460] * 6))
     sigs.append(('two-values', [600, -600] * 5 + [1200, -600] * 5))
+    # constant-bit-time remotes: the two symbols have the same total duration (short mark + long space / long mark + short space)
+    for u_, k_ in ((400, 3), (300, 3), (500, 2), (250, 4)):
+        for _ in range(2 if not ctx.thorough else 8):
+            nb = r.randint(6, 16)
+            bits = [r.randint(0, 1) for _ in range(nb)]
+            if len(set(bits)) == 1:
+                bits[0] ^= 1
+            body = [x for b_ in bits for x in ((u_ * k_, -u_) if b_ else (u_, -u_ * k_))]
+            sigs.append(('constant-bit-time', [u_ * 8, -u_ * 4] + body + [u_, -30000]))
     # families that share their burst pairs: a signal with two kinds of data pair, then the degenerate keys made of only
     # one of them (all-zeros / all-ones of the same remote), decoded one after the other on the SAME long-lived instance
     for _ in range(6 if not ctx.thorough else 40):
@@ -99,10 +108,12 @@ def check(ctx):
         if isinstance(w, dict) and 'signal' in w:
             sigs.insert(0, ('witness', w['signal']))
     ops, reals = [], []
+    pairs = []          # (signal, perturbed, op index of the signal, op index of the perturbation, real codes)
     tol = 20
     for kind, sig in sigs:
         ctx.count((kind, tuple(sig)), nontrivial=len(set(sig)) >= 3)
         ops.append('universal %d 1 %s' % (tol, ' '.join(map(str, sig))))
+        ibase = len(ops) - 1
         F = dict(kind=kind, length=len(sig))
         try:
             base = real_code(u, sig)
@@ -122,11 +133,17 @@ def check(ctx):
             ctx.violation('Universal.decode', 'raises', '%s on repeat decode' % type(e).__name__, F, input=dict(signal=sig))
         # stability under quarter-tolerance perturbation
         q = tol / 400.0
-        for k in range(3):
+        for k in range(5):
             pert = []
+            big = max(abs(y) for y in sig[:-1]) if len(sig) > 1 else 0
             for x in sig:
                 d = int(abs(x) * q)
-                v = abs(x) + (r.randint(-d, d) if k else (d if (len(pert) % 2 == 0) else -d))
+                if k == 3:       # duration classes drift apart: every mark short, every space as sent
+                    v = abs(x) - (d if x > 0 else 0)
+                elif k == 4:     # every space long, every mark as sent
+                    v = abs(x) + (d if x < 0 else 0)
+                else:
+                    v = abs(x) + (r.randint(-d, d) if k else (d if (len(pert) % 2 == 0) else -d))
                 pert.append(max(1, v) if x > 0 else -max(1, v))
             ops.append('universal %d 1 %s' % (tol, ' '.join(map(str, pert))))
             try:
@@ -136,6 +153,7 @@ def check(ctx):
                 reals.append('err ' + type(e).__name__)
                 ctx.violation('Universal.decode', 'raises', '%s on a perturbed %s signal' % (type(e).__name__, kind), F, input=dict(signal=pert))
                 continue
+            pairs.append((kind, sig, pert, ibase, len(ops) - 1, base, c2))
             if c2 != base:
                 ctx.violation('Universal.decode', 'unstable-under-perturbation', '%s signal of %d durations: code %d becomes %d under a perturbation of at most tolerance/4' % (kind, len(sig), base, c2),
                               dict(F, distinct=len(set(sig))), input=dict(signal=sig, perturbed=pert))
@@ -147,6 +165,13 @@ def check(ctx):
         for o, m, rl in zip(ops, outs, reals):
             if m != rl and len(ctx.corr['disagreements']) < 10:
                 ctx.disagree(o[:300], m, rl)
+        # the recorded instability of the unchanged algorithm is exactly what the model reproduces; a pair on which the real
+        # decoder changes its answer while the model of the unchanged algorithm keeps it is a different, new instability
+        for kind, sig, pert, ib, ip, base, c2 in pairs:
+            if c2 != base and ib < len(outs) and ip < len(outs) and outs[ib] == outs[ip] and outs[ib].startswith('ok'):
+                ctx.violation('Universal.decode', 'unstable-where-the-algorithm-is-stable',
+                              '%s signal of %d durations: code %d becomes %d under a perturbation of at most tolerance/4, although the modelled (unchanged) algorithm gives %s for both' % (
+                                  kind, len(sig), base, c2, outs[ib]), dict(kind=kind, length=len(sig)), input=dict(signal=sig, perturbed=pert))
     except Exception as e:
         ctx.oblige('correspondence_driver', False, str(e)[:300])
     ctx.sample({'signal': sigs[5][1][:16], 'kind': sigs[5][0]})
